@@ -246,6 +246,15 @@ impl Repr {
         if packet.dst_port() == 0 {
             return Err(Error);
         }
+        // The checksum is mandatory on UDP-over-IPv6: a zero checksum field does not
+        // mean "no checksum" there, such packets must be discarded (RFC 8200 § 8.1).
+        #[cfg(feature = "proto-ipv6")]
+        if checksum_caps.udp.rx()
+            && packet.checksum() == 0
+            && matches!(dst_addr, &IpAddress::Ipv6(_))
+        {
+            return Err(Error);
+        }
         // Valid checksum is expected...
         if checksum_caps.udp.rx() && !packet.verify_checksum(src_addr, dst_addr) {
             match (src_addr, dst_addr) {
